@@ -73,6 +73,12 @@ def diff_where(a, b, path=""):
     """first place where two snapshots differ (for the report)"""
     if type(a) != type(b):
         return path + ": type"
+    if isinstance(a, tuple) and len(a) == 4 and a[0] == "nd" and isinstance(b, tuple) and len(b) == 4 and b[0] == "nd":
+        if a[1:3] != b[1:3]:
+            return path + ": array %s%s -> %s%s" % (a[1], a[2], b[1], b[2])
+        x, y = np.frombuffer(a[3], dtype=a[1]), np.frombuffer(b[3], dtype=b[1])
+        i = int(np.flatnonzero(x != y)[0]) if x.dtype.kind != "V" and np.any(x != y) else 0
+        return path + ": array%s flat index %d: %r -> %r (%d entries differ)" % (a[2], i, x[i].item(), y[i].item(), int(np.sum(x != y)))
     if isinstance(a, (tuple, list)):
         if len(a) != len(b):
             return path + ": length %d -> %d" % (len(a), len(b))
@@ -298,7 +304,7 @@ def sc_edgelist(rng):
         kw["row_label_dictionary"] = {t: i for i, t in enumerate(rows)}
     elif r < 0.6:
         kw["column_label_dictionary"] = {t: i for i, t in enumerate(cols)}
-    if rng.rand() < 0.2:
+    if not kw and rng.rand() < 0.3:
         kw["joint_space"] = True
     D = edges(rng, rows, cols, rng.randint(5, 15))
     as_df = rng.rand() < 0.3
@@ -419,7 +425,7 @@ def sc_wasserstein(rng):
         pool = [freeze((ot_matrix(rng, int(rng.randint(2, 8)), n_cols, "csr"), {"vectors": vecs})),
                 freeze((X[:3].tocsr() if fmt != "coo" else X.tocsr()[:3], {"vectors": vecs})),
                 freeze((ot_matrix(rng, 5, n_cols, "csc"), {"vectors": vecs}))]
-        fault = ("svd", int(rng.randint(1, 4)))
+        fault = ("svd", int(rng.choice([1, 1, 2, 2, 3])))
     else:
         def lil(nr):
             d, v = [], []
@@ -433,7 +439,7 @@ def sc_wasserstein(rng):
             fitd = freeze((d, {"vectors": v}))
             mk = lambda dv: freeze((dv[0], {"vectors": dv[1]}))
             pool = [mk(lil(int(rng.randint(2, 7)))), mk((d[:3], v[:3])), mk(lil(4))]
-            fault = ("svd", int(rng.randint(1, 4))) if rng.rand() < 0.6 else ("badref", 0)
+            fault = ("svd", int(rng.choice([1, 1, 2, 2, 3]))) if rng.rand() < 0.6 else ("badref", 0)
         else:
             kw["generator_vector_dim"] = dim
             kw["generator_n_distributions"] = n_rows
